@@ -22,6 +22,17 @@ observation if at least one of them predicts it.  Silent points:
 
 State: tuple of (key, Entry) pairs, least recently used first.  key =
 (loader id, template name).  Entry = (ident, text, stamp).
+
+Direct use of the cache object (``env.cache``: the LRU mapping of capacity
+cache_size the environment keeps its templates in, a plain dict when
+unbounded) by the application -- pre-warming, inspection, invalidation -- is
+modelled by ``cache_op_outcomes`` from the LRUCache docstrings: get /
+__getitem__ / setdefault of a present key are uses (the item gets "the highest
+priority"), __setitem__ makes the key the most recent one and cleans out the
+least recently used item only when a NEW key arrives at a full cache,
+setdefault of an absent key is an insert like __setitem__, __delitem__ /
+clear remove, `in` reports presence (whether it counts as a use is not
+documented: both accepted), iteration / copy change nothing.
 """
 from __future__ import annotations
 
@@ -116,3 +127,43 @@ def op_outcomes(state, cfg, lid, names, world, new_ident):
 
     rec(0, state, ())
     return results
+
+
+CACHE_OPS = ("setdefault", "get", "getitem", "setitem", "delitem", "contains", "clear")
+
+
+def cache_op_outcomes(state, cfg, op, key, ent):
+    """All (result, next_state) a conforming cache may show for one direct
+    operation on the cache object.  ``ent`` is the entry the harness offers
+    (setdefault / setitem).  result: ("val", ident) | ("none",) | ("keyerror",)
+    | ("done",) | ("bool", b)."""
+    cur = _find(state, key)
+    if op == "setdefault":
+        if cur is not None:
+            return [(("val", cur[0]), _touch(state, key))]
+        return [(("val", ent[0]), _store(state, key, ent, cfg.size))]
+    if op == "get":
+        if cur is not None:
+            return [(("val", cur[0]), _touch(state, key))]
+        return [(("none",), state)]
+    if op == "getitem":
+        if cur is not None:
+            return [(("val", cur[0]), _touch(state, key))]
+        return [(("keyerror",), state)]
+    if op == "setitem":
+        return [(("done",), _store(state, key, ent, cfg.size))]
+    if op == "delitem":
+        if cur is not None:
+            return [(("done",), _without(state, key))]
+        return [(("keyerror",), state)]
+    if op == "contains":
+        if cur is None:
+            return [(("bool", False), state)]
+        out = [(("bool", True), state)]
+        t = _touch(state, key)
+        if t != state:
+            out.append((("bool", True), t))
+        return out
+    if op == "clear":
+        return [(("done",), ())]
+    raise AssertionError(op)
